@@ -359,5 +359,8 @@ PROPS["C17"]["rules"] = PROPS["C17"]["rules"] + [rules_dd.rule_end_extension]
 PROPS["C09"]["rules"] = PROPS["C09"]["rules"] + [(lambda ctx: rules_dd.rule_F3c(ctx, {"ri_info"}))]
 PROPS["C09"]["explanation"] += " (F3c for images) every non-failing path that changes a field of the in-memory image record which GRIupdatemeta/GRIupdateRI store (dimension records of image and palette, name, palette reference) also sets `meta_modified`, the flag that makes GRend rewrite the image's description."
 
+PROPS["C10"]["rules"] = PROPS["C10"]["rules"] + [rules_attr.rule_attr_count_kept]
+PROPS["C10"]["explanation"] += " (ATTRCOUNT) the record count of an attribute Vdata reaches NC_new_attr in hdf_read_attrs (scaled by the field order, never replaced by it)."
+
 NOT_APPLICABLE = {}
 
